@@ -502,6 +502,337 @@ Proof.
   repeat (split; [reflexivity|]). discriminate.
 Qed.
 
+(* ======== answers to the statement review design/reviews/C16.md (appended; nothing above was changed) ======== *)
+From FFS Require Import Rpc.WfReferee Rpc.RefineReferee.
+
+(* 16. (review I3) C16_history without its lexer-coherence hypothesis on the history: that hypothesis was never
+       used (coherence is a premise INSIDE wellformed_reply clause (b) and never_null_reply clause 3).  This is the
+       stronger statement; C16_history is its special case. *)
+Theorem C16_history_any :
+  forall (W F : Type)
+         (sync_request : W -> request -> (option response * bool) * W)
+         (call_nonce : W -> F -> option rpc_error * W)
+         (get_accounts : W -> option (list bytes) * W)
+         (sign : W -> txn_view F -> option bytes * W)
+         (decode_txn : option jv -> option (txn_view F))
+         (parse_from : F -> bool)
+         (sched : W -> nat -> list nat),
+    (forall w n, Permutation (sched w n) (seq 0 n)) ->
+    sync_wf sync_request ->
+    forall (h : list (bytes * verdict)) (w : W),
+    exists reps w',
+      serve W F sync_request call_nonce get_accounts sign decode_txn parse_from sched w h = Ok (reps, w') /\
+      Forall2 (fun bv rep => wellformed_reply (fst bv) (snd bv) rep /\
+                             never_null_reply F decode_txn parse_from (fst bv) (snd bv) rep) h reps.
+Proof. exact serve_history_any. Qed.
+Print Assumptions C16_history_any.
+
+(* 16b. (review, level_text) ... and with NO hypothesis on the backend at all for the never-null clause: every
+        finite history is served to its end and every reply meets clause 3. *)
+Theorem C16_history_never_null :
+  forall (W F : Type)
+         (sync_request : W -> request -> (option response * bool) * W)
+         (call_nonce : W -> F -> option rpc_error * W)
+         (get_accounts : W -> option (list bytes) * W)
+         (sign : W -> txn_view F -> option bytes * W)
+         (decode_txn : option jv -> option (txn_view F))
+         (parse_from : F -> bool)
+         (sched : W -> nat -> list nat),
+    (forall w n, Permutation (sched w n) (seq 0 n)) ->
+    forall (h : list (bytes * verdict)) (w : W),
+    exists reps w',
+      serve W F sync_request call_nonce get_accounts sign decode_txn parse_from sched w h = Ok (reps, w') /\
+      Forall2 (fun bv rep => never_null_reply F decode_txn parse_from (fst bv) (snd bv) rep) h reps.
+Proof. exact serve_history_never_null. Qed.
+Print Assumptions C16_history_never_null.
+
+(* 17. (review I4) What "not a parseable batch" gets, by name, with no hypothesis whatsoever (not even on the
+       scheduler): every body that is not a request -- a syntax error, a scalar, an object with an ill-kinded
+       request field, the empty array, AND an array with a member that is a number / string / bool / array / an
+       object with an ill-kinded field (e.g. [1,{"id":1,"method":"eth_accounts"}]) -- is answered by exactly
+       replyRPCParseError: ONE error object (HTTP 400, id 1, code -32600), never an array; such members do NOT get a
+       slot of their own, and the valid members next to them are not processed (the world is unchanged).  JSON-RPC
+       2.0 section 6 would answer [1] with [{error}]; the code does not, and C16 is stated for what it does. *)
+Theorem C16_unprocessable_exact :
+  forall (W F : Type)
+         (sync_request : W -> request -> (option response * bool) * W)
+         (call_nonce : W -> F -> option rpc_error * W)
+         (get_accounts : W -> option (list bytes) * W)
+         (sign : W -> txn_view F -> option bytes * W)
+         (decode_txn : option jv -> option (txn_view F))
+         (parse_from : F -> bool)
+         (sched : W -> nat -> list nat)
+         (w : W) (body : bytes) (v : verdict),
+    unprocessable_body v -> v <> Tree JNull ->
+    rpcHandler W F sync_request call_nonce get_accounts sign decode_txn parse_from sched w body v = Ok (parse_error_reply, w).
+Proof. exact unprocessable_exact. Qed.
+Print Assumptions C16_unprocessable_exact.
+
+Theorem C16_unparseable_array_one_error :
+  forall (W F : Type)
+         (sync_request : W -> request -> (option response * bool) * W)
+         (call_nonce : W -> F -> option rpc_error * W)
+         (get_accounts : W -> option (list bytes) * W)
+         (sign : W -> txn_view F -> option bytes * W)
+         (decode_txn : option jv -> option (txn_view F))
+         (parse_from : F -> bool)
+         (sched : W -> nat -> list nat)
+         (w : W) (body : bytes) (l : list jv),
+    parseable_batch (Tree (JArr l)) = None ->
+    rpcHandler W F sync_request call_nonce get_accounts sign decode_txn parse_from sched w body (Tree (JArr l))
+    = Ok (parse_error_reply, w).
+Proof. exact unparseable_array_one_error. Qed.
+Print Assumptions C16_unparseable_array_one_error.
+
+(* 17b. the remaining unprocessable body, the literal null: the zero request, i.e. the missing-id error object
+        (HTTP 500, id null) -- or replyRPCParseError when the sniffed byte is '[' (incoherent verdict only). *)
+Theorem C16_null_body_exact :
+  forall (W F : Type)
+         (sync_request : W -> request -> (option response * bool) * W)
+         (call_nonce : W -> F -> option rpc_error * W)
+         (get_accounts : W -> option (list bytes) * W)
+         (sign : W -> txn_view F -> option bytes * W)
+         (decode_txn : option jv -> option (txn_view F))
+         (parse_from : F -> bool)
+         (sched : W -> nat -> list nat)
+         (w : W) (body : bytes),
+    rpcHandler W F sync_request call_nonce get_accounts sign decode_txn parse_from sched w body (Tree JNull) =
+    Ok (if byte_eqb (sniff_first_byte body) open_bracket then parse_error_reply
+        else mkReply 500 (PSingle (Some (RPCErrorResponse None RPCCodeInvalidRequest))), w).
+Proof. exact null_body_exact. Qed.
+Print Assumptions C16_null_body_exact.
+
+(* 18. (review I5) The model CAN panic, and the one hypothesis of C16_total is necessary: under a scheduler whose
+       first entry names a goroutine that does not exist (index >= n) the handler panics on EVERY decodable
+       non-empty batch (rpcArray[i] out of range on the member goroutine). *)
+Theorem C16_sched_guard_needed :
+  forall (W F : Type)
+         (sync_request : W -> request -> (option response * bool) * W)
+         (call_nonce : W -> F -> option rpc_error * W)
+         (get_accounts : W -> option (list bytes) * W)
+         (sign : W -> txn_view F -> option bytes * W)
+         (decode_txn : option jv -> option (txn_view F))
+         (parse_from : F -> bool)
+         (sched : W -> nat -> list nat)
+         (w : W) (body : bytes) (v : verdict) (reqs : list (option request)) (i : nat) (rest : list nat),
+    byte_eqb (sniff_first_byte body) open_bracket = true ->
+    decode_batch v = Ok reqs -> reqs <> [] ->
+    sched w (length reqs) = i :: rest -> (length reqs <= i)%nat ->
+    rpcHandler W F sync_request call_nonce get_accounts sign decode_txn parse_from sched w body v = Panic.
+Proof. exact sched_out_of_range_panics. Qed.
+Print Assumptions C16_sched_guard_needed.
+
+(* 18b. (review I5) The handler as it was BEFORE fix d674d82 (WfReferee.processRPC_prefix: the nil guard of
+        processRPC removed, the argument dereferenced first; everything else word for word): for every world,
+        backend, wallet and every completion order that is a permutation, a batch of n+1 null members panics --
+        C16_total is a theorem about the guard, not about how the result type was written down. *)
+Theorem C16_prefix_panics_on_null_member :
+  forall (W F : Type)
+         (sync_request : W -> request -> (option response * bool) * W)
+         (call_nonce : W -> F -> option rpc_error * W)
+         (get_accounts : W -> option (list bytes) * W)
+         (sign : W -> txn_view F -> option bytes * W)
+         (decode_txn : option jv -> option (txn_view F))
+         (parse_from : F -> bool)
+         (sched : W -> nat -> list nat) (w : W) (n : nat),
+    Permutation (sched w (S n)) (seq 0 (S n)) ->
+    handleRPCBatch_prefix W F sync_request call_nonce get_accounts sign decode_txn parse_from sched w
+                          (Tree (JArr (repeat JNull (S n)))) = Panic.
+Proof. exact prefix_panics_on_null_member. Qed.
+Print Assumptions C16_prefix_panics_on_null_member.
+
+(* 19. (review I1) C16_wellformed_concrete / C16_history_concrete with the hypothesis on the BACKEND instead of the
+       derived guard on SyncRequest's output: for a conforming backend -- every reply is RefineBackend.reply_wf: a
+       JSON-RPC 2.0 result object, an error object with a non-zero code (HTTP 2xx or >= 400), an HTTP error
+       (>= 400) without a JSON-RPC body, or no reply at all -- every reply of the concrete handler is well-formed. *)
+Theorem C16_wellformed_conforming :
+  forall (parse_int : bytes -> option Z) (lex : bytes -> option Json.json) (accounts : list bytes)
+         (sign_with : bytes -> Json.transaction -> Z -> res bytes)
+         (backend : Model.frame -> Model.backend_reply) (chain : Z),
+    (forall a t c, sign_with a t c <> Panic) ->
+    (forall fr, reply_wf (backend fr)) ->
+    forall (body : bytes) (order : list nat),
+      (forall t ms, lex body = Some t -> Json.decode_batch t = Ok ms -> Permutation order (seq 0 (length ms))) ->
+      exists status tree traces,
+        Model.rpcHandler parse_int lex accounts sign_with backend chain body order = Ok (status, tree, traces) /\
+        wellformed_tree body (verdict_of (lex body)) tree.
+Proof. exact wellformed_conforming. Qed.
+Print Assumptions C16_wellformed_conforming.
+
+Theorem C16_history_conforming :
+  forall (parse_int : bytes -> option Z) (lex : bytes -> option Json.json) (accounts : list bytes)
+         (sign_with : bytes -> Json.transaction -> Z -> res bytes)
+         (backend : Model.frame -> Model.backend_reply) (chain : Z),
+    (forall a t c, sign_with a t c <> Panic) ->
+    (forall fr, reply_wf (backend fr)) ->
+    forall (h : list (bytes * list nat)),
+      Forall (fun bo => forall t ms, lex (fst bo) = Some t -> Json.decode_batch t = Ok ms ->
+                                     Permutation (snd bo) (seq 0 (length ms))) h ->
+      exists reps,
+        serve_c parse_int lex accounts sign_with backend chain h = Ok reps /\
+        Forall2 (fun bo hr => wellformed_tree (fst bo) (verdict_of (lex (fst bo))) (reply_tree_of hr) /\
+                              id_echo_tree lex (fst bo) (reply_tree_of hr)) h reps.
+Proof. exact history_conforming. Qed.
+Print Assumptions C16_history_conforming.
+
+(* 19b. (review I1) What is NOT proved, as refutations over the concrete model: clause (d) of the property fails
+        for backends that do not conform.  (i) HTTP 200 with an error object whose code is 0: the PROXY'S OWN reply
+        (HTTP 200) carries both "result" (null) and "error" and is not a response object.  (ii) a backend labelling
+        its answer "jsonrpc":"1.0": relayed verbatim; sync_wf_c fails and the proxy's reply says "1.0". *)
+Theorem C16_code0_reply_not_wellformed :
+  exists tree traces,
+    Model.rpcHandler (fun _ => None) (fun _ => Some probe_tree) [] (fun _ _ _ => Err 3%nat) code0_backend 1%Z
+                     (Json.bs "{}") [] = Ok (200%N, tree, traces) /\
+    (exists v, tree_member "result" tree = Some v) /\ (exists e, tree_member "error" tree = Some e) /\
+    ~ reply_tree_ok tree.
+Proof. exact code0_reply_not_wellformed. Qed.
+Print Assumptions C16_code0_reply_not_wellformed.
+
+Theorem C16_backend_guard_needed_jsonrpc :
+  let '(res, err, _) := Model.SyncRequest jsonrpc1_backend probe_rq in
+  err = false /\ Json.rs_jsonrpc res = Json.bs "1.0" /\ ~ sync_wf_c jsonrpc1_backend.
+Proof. exact sync_wf_c_jsonrpc1_refuted. Qed.
+Print Assumptions C16_backend_guard_needed_jsonrpc.
+
+Theorem C16_jsonrpc1_reply_not_wellformed :
+  exists tree traces,
+    Model.rpcHandler (fun _ => None) (fun _ => Some probe_tree) [] (fun _ _ _ => Err 3%nat) jsonrpc1_backend 1%Z
+                     (Json.bs "{}") [] = Ok (200%N, tree, traces) /\
+    tree_member "jsonrpc" tree = Some (Json.JStr (Json.bs "1.0")) /\ ~ reply_tree_ok tree.
+Proof. exact jsonrpc1_reply_not_wellformed. Qed.
+Print Assumptions C16_jsonrpc1_reply_not_wellformed.
+
+(* 20. (review I2) The bytes on the wire.  replyRPC is `b, _ := json.Marshal(result); w.Write(b)` with the error
+       DROPPED (RefineReferee.replyRPC_body: None => the empty body).  encoding/json is external: [marshal] and the
+       relation [denotes b t] ("the text b is JSON denoting t") are universally quantified, their three laws
+       (RefineReferee.marshal_laws: Marshal succeeds on every reply value; what it writes denotes the value; the
+       empty text denotes nothing) are HYPOTHESES, not theorems -- there is no serialiser / parser model.  Under
+       them: for every backend the body is non-empty and denotes the handler's reply tree (objects carrying the
+       request ids, never null); for a conforming backend that tree is well-formed.  C16_wire_empty_iff: without
+       the laws nothing is left -- the body is empty exactly when Marshal fails or writes nothing. *)
+Theorem C16_wire_reply_any_backend :
+  forall (marshal : Json.json -> option bytes) (denotes : bytes -> Json.json -> Prop),
+    marshal_laws marshal denotes ->
+  forall (parse_int : bytes -> option Z) (lex : bytes -> option Json.json) (accounts : list bytes)
+         (sign_with : bytes -> Json.transaction -> Z -> res bytes)
+         (backend : Model.frame -> Model.backend_reply) (chain : Z),
+    (forall a t c, sign_with a t c <> Panic) ->
+    forall (body : bytes) (order : list nat),
+      (forall t ms, lex body = Some t -> Json.decode_batch t = Ok ms -> Permutation order (seq 0 (length ms))) ->
+      exists status tree traces,
+        Model.rpcHandler parse_int lex accounts sign_with backend chain body order = Ok (status, tree, traces) /\
+        replyRPC_body marshal tree <> [] /\ denotes (replyRPC_body marshal tree) tree /\ id_echo_tree lex body tree.
+Proof. exact wire_reply_any_backend. Qed.
+Print Assumptions C16_wire_reply_any_backend.
+
+Theorem C16_wire_reply_wellformed :
+  forall (marshal : Json.json -> option bytes) (denotes : bytes -> Json.json -> Prop),
+    marshal_laws marshal denotes ->
+  forall (parse_int : bytes -> option Z) (lex : bytes -> option Json.json) (accounts : list bytes)
+         (sign_with : bytes -> Json.transaction -> Z -> res bytes)
+         (backend : Model.frame -> Model.backend_reply) (chain : Z),
+    (forall a t c, sign_with a t c <> Panic) ->
+    forall (body : bytes) (order : list nat),
+      (forall fr, reply_wf (backend fr)) ->
+      (forall t ms, lex body = Some t -> Json.decode_batch t = Ok ms -> Permutation order (seq 0 (length ms))) ->
+      exists status tree traces,
+        Model.rpcHandler parse_int lex accounts sign_with backend chain body order = Ok (status, tree, traces) /\
+        replyRPC_body marshal tree <> [] /\ denotes (replyRPC_body marshal tree) tree /\
+        wellformed_tree body (verdict_of (lex body)) tree.
+Proof. exact wire_reply_wellformed. Qed.
+Print Assumptions C16_wire_reply_wellformed.
+
+Theorem C16_wire_empty_iff :
+  forall (marshal : Json.json -> option bytes) (t : Json.json),
+    replyRPC_body marshal t = [] <-> marshal t = None \/ marshal t = Some [].
+Proof. exact wire_empty_iff. Qed.
+Print Assumptions C16_wire_empty_iff.
+
+(* ---- non-vacuity of 16-20 ---- *)
+
+(* 16: a history whose second entry is NOT coherent (array tree, body that does not start with '['): served *)
+Example C16_history_any_nonvacuous :
+  ~ lexer_coherent (ascii_bytes "{}") (Tree (JArr [JNull])) /\
+  exists r1 r2,
+    serve unit unit ex_sync (fun w _ => (None, w)) (fun w => (Some [ascii_bytes "0x01"], w)) (fun w _ => (None, w))
+          (fun _ => None) (fun _ => false) (fun _ n => rev (seq 0 n)) tt
+          [(ascii_bytes "[null]", Tree (JArr [JNull])); (ascii_bytes "{}", Tree (JArr [JNull]))]
+    = Ok ([r1; r2], tt) /\ status r1 = 500%N /\ status r2 = 400%N.
+Proof.
+  split.
+  - intros H. destruct (H [JNull] eq_refl) as [rest Hr]. vm_compute in Hr. discriminate.
+  - eexists _, _. split; [vm_compute; reflexivity|]. split; reflexivity.
+Qed.
+
+(* 17: the referee's bodies [1,{"id":1,"method":"eth_accounts"}], [{"id":1,"method":5}], [[]] are arrays that
+   are not parseable batches; the first is answered by the single parse-error object (not an array of 2) *)
+Example C16_unprocessable_nonvacuous :
+  let v1 := Tree (JArr [JNum (ascii_bytes "1"); ex_obj "eth_accounts"]) in
+  let v2 := Tree (JArr [JObj [(ascii_bytes "id", JNum (ascii_bytes "1")); (ascii_bytes "method", JNum (ascii_bytes "5"))]]) in
+  let v3 := Tree (JArr [JArr []]) in
+  parseable_batch v1 = None /\ parseable_batch v2 = None /\ parseable_batch v3 = None /\
+  unprocessable_body v1 /\ v1 <> Tree JNull /\
+  ex_handler tt (ascii_bytes "[1,{""id"":7,""method"":""eth_accounts""}]") v1 = Ok (parse_error_reply, tt) /\
+  status parse_error_reply = 400%N.
+Proof. cbv zeta. repeat split; try reflexivity; discriminate. Qed.
+
+(* 18: the model returns Panic -- abstract handler with a scheduler naming goroutine 5 of a batch of 1; the
+   concrete handler of C09 with such an order, and with a signer that panics (the hypothesis sign_with <> Panic
+   of the concrete theorems is needed); the pre-fix handler on [null] under the reverse-order scheduler *)
+Definition exp_tx_tree : Json.json :=
+  Json.JObj [(Json.bs "id", Json.JNum (Json.bs "1")); (Json.bs "method", Json.JStr (Json.bs "eth_sendTransaction"));
+             (Json.bs "params", Json.JArr [Json.JObj [(Json.bs "from", Json.JStr (Json.bs "0x00000000000000000000000000000000000000aa"));
+                                                      (Json.bs "nonce", Json.JStr (Json.bs "0x1"))]])].
+Example C16_model_can_panic :
+  rpcHandler unit unit ex_sync (fun w _ => (None, w)) (fun w => (Some [], w)) (fun w _ => (None, w))
+             (fun _ => None) (fun _ => false) (fun _ _ => [5%nat]) tt (ascii_bytes "[null]") (Tree (JArr [JNull])) = Panic /\
+  Model.rpcHandler (fun _ => None) (fun _ => Some (Json.JArr [Json.JNull])) [] (fun _ _ _ => Err 3%nat)
+                   (fun _ => Model.BConnFail) 1%Z (ascii_bytes "[null]") [5%nat] = Panic /\
+  Model.rpcHandler (fun _ => Some 1%Z) (fun _ => Some exp_tx_tree) [repeat x00 19 ++ [xaa]] (fun _ _ _ => Panic)
+                   (fun _ => Model.BConnFail) 1%Z (ascii_bytes "{}") [] = Panic /\
+  handleRPCBatch_prefix unit unit ex_sync (fun w _ => (None, w)) (fun w => (Some [], w)) (fun w _ => (None, w))
+                        (fun _ => None) (fun _ => false) (fun _ n => rev (seq 0 n)) tt (Tree (JArr [JNull])) = Panic.
+Proof. repeat split; vm_compute; reflexivity. Qed.
+
+(* 5b clause 3 executed (review I6): the concrete handler run on a SINGLE request that must fail -- `from` "zz",
+   no nonce -- with a body that is that request's text; the reply is an error object with the request's id *)
+Definition exq_tree : Json.json :=
+  Json.JObj [(Json.bs "id", Json.JNum (Json.bs "7")); (Json.bs "method", Json.JStr (Json.bs "eth_sendTransaction"));
+             (Json.bs "params", Json.JArr [Json.JObj [(Json.bs "from", Json.JStr (Json.bs "zz"))]])].
+Example C16_never_null_concrete_executed :
+  let body := ascii_bytes "{""id"":7,""method"":""eth_sendTransaction"",""params"":[{""from"":""zz""}]}" in
+  exists rq,
+    Json.decode_request exq_tree = Ok rq /\ must_fail_c (fun _ => None) (Some rq) = true /\
+    Model.rpcHandler (fun _ => None) (fun _ => Some exq_tree) [] (fun _ _ _ => Err 3%nat) (fun _ => Model.BConnFail) 1%Z body []
+    = Ok (500%N, Json.response_tree (Model.RPCErrorResponse (Some (Json.JNum (Json.bs "7"))) Model.RPCCodeParseError), [[]]) /\
+    error_reply_tree (Json.response_tree (Model.RPCErrorResponse (Some (Json.JNum (Json.bs "7"))) Model.RPCCodeParseError)).
+Proof.
+  cbv zeta. eexists. split; [vm_compute; reflexivity|]. split; [vm_compute; reflexivity|].
+  split; [vm_compute; reflexivity|]. eexists _, _. reflexivity.
+Qed.
+
+(* 3 once more (review I6), with a body that IS the text of the verdict tree *)
+Example C16_never_null_nonvacuous_body :
+  let body := ascii_bytes "{""id"":7,""method"":""eth_sendTransaction"",""params"":[{""from"":""zz""}]}" in
+  let v := Tree (JObj [(ascii_bytes "id", JNum (ascii_bytes "7")); (ascii_bytes "method", JStr m_eth_sendTransaction);
+                       (ascii_bytes "params", JArr [JObj [(ascii_bytes "from", JStr (ascii_bytes "zz"))]])]) in
+  exists q, decode_single v = Ok q /\
+    ex_handler tt body v = Ok (mkReply 500 (PSingle (Some (RPCErrorResponse (q_id q) RPCCodeParseError))), tt).
+Proof. eexists. split; vm_compute; reflexivity. Qed.
+
+(* 19: a conforming backend exists (exc_backend answers result objects) *)
+Example C16_conforming_nonvacuous : forall fr, reply_wf (exc_backend fr).
+Proof. intros fr. apply wf_result. Qed.
+
+(* 20: the laws of the wire theorems have an instance (a compact renderer; NOT a model of encoding/json), and a
+   Marshal that fails gives the empty body *)
+Example C16_wire_nonvacuous :
+  marshal_laws (fun t => Some (render t)) (fun b t => b = render t) /\
+  replyRPC_body (fun t => Some (render t)) (Json.JArr [Json.JObj [(Json.bs "id", Json.JNum (Json.bs "7"))]; Json.JNull])
+    = ascii_bytes "[{""id"": 7},null]" /\
+  replyRPC_body (fun _ => None) Json.JNull = [].
+Proof. split; [exact render_laws|]. split; vm_compute; reflexivity. Qed.
+
 (* Tie of the hand-written JSON-RPC error codes of Rpc/WfModel.v (and of Rpc/Model.v, which
    WfProofsC09 links to it) to the source.  Gen/Consts.v is regenerated on every run by the
    translator harness/cmd/gen_consts from the `const` declarations of pkg/rpcbackend/backend.go as
